@@ -30,6 +30,7 @@ type ForeignParams struct {
 	Str      string `json:"str,omitempty"`      // printable | utf8 | ia5 | teletex : DN string type
 	Parts    string `json:"parts,omitempty"`    // cert+key | key | csr | cert+csr | cert
 	P8       string `json:"p8,omitempty"`       // EC: outer | inner | both ; RSA: null | noparams
+	V2       bool   `json:"v2,omitempty"`       // RFC 5958 OneAsymmetricKey: version 1, public key attached as [1]
 	Pub      bool   `json:"pub,omitempty"`      // EC: include the optional public key
 	PubForm  string `json:"pubForm,omitempty"`  // EC: point form of that optional public key: "" uncompressed | compressed | hybrid (SEC 1 2.3.3)
 	Pad      string `json:"pad,omitempty"`      // EC scalar: fixed | stripped | extra
@@ -148,6 +149,10 @@ func (k *genKeyT) pkcs8(p ForeignParams) []byte {
 		if p.P8 == "noparams" {
 			alg = derSeq(derOIDBytes(oidRSA))
 		}
+		if p.V2 {
+			pub := derSeq(derIntBytes(r.N), derSmallInt(int64(r.E)))
+			return derSeq(derSmallInt(1), alg, derOctets(inner), derTLV(0x81, append([]byte{0}, pub...)))
+		}
 		return derSeq(derSmallInt(0), alg, derOctets(inner))
 	}
 	n := (k.ec.Curve.Params().N.BitLen() + 7) / 8
@@ -173,6 +178,9 @@ func (k *genKeyT) pkcs8(p ForeignParams) []byte {
 	alg := derSeq(derOIDBytes(oidECPub), derOIDBytes(k.curve))
 	if p.P8 == "inner" {
 		alg = derSeq(derOIDBytes(oidECPub))
+	}
+	if p.V2 {
+		return derSeq(derSmallInt(1), alg, derOctets(derSeq(parts...)), derTLV(0x81, append([]byte{0}, ecPointBytes(k.ec.Curve, k.ec.X, k.ec.Y)...)))
 	}
 	return derSeq(derSmallInt(0), alg, derOctets(derSeq(parts...)))
 }
